@@ -115,8 +115,10 @@ def dpAllFuel (sqrt : α → α) (eps : α) : Nat → List (Fix α) → List (Li
 
 /-! ### Visvalingam -/
 
-/-- Python `abs` -/
-def pabs (v : α) : α := if v < 0 then -v else v
+/-- Python `abs` on a float: `v` if `0 < v` else `0 - v` — the same double as C's `fabs` for every double, `-0.0`
+included (`abs(-0.0) == 0.0` with a positive sign; the former `if v < 0 then -v else v` returned `-0.0` there: found
+by the tie with the translated source, `Tie/C16.lean`) -/
+def pabs (v : α) : α := if 0 < v then v else 0 - v
 
 /-- `triangle_area(x0, y0, x1, y1, x2, y2)`; `0.5` is `1/2` -/
 def triangleArea (x0 y0 x1 y1 x2 y2 : α) : α :=
